@@ -559,6 +559,11 @@ class CBO(Search):
             t1 = time.time()
             self._opt.tell(opt_X, opt_y)
             logging.info(f"Fitting took {time.time() - t1:.4f} sec.")
+        else:
+            # Nothing is told to the optimizer (e.g., only ignored failures) but the
+            # configurations it suggested were consumed: without refreshing its state the
+            # next ask would return the very same configurations again.
+            self._opt.update_next()
 
     def _search(self, max_evals, timeout, max_evals_strict=False):
         if self._opt is None:
